@@ -245,6 +245,22 @@ pristine = SNAP(DiffX())
 ''', [('other_tree_unchanged', 'SAME(before, after)'),
       ('later_tree_has_pristine_defaults', 'SAME(fresh, pristine)'),
       ('new_tree_meta_empty', 'len(d3.meta) == 0')], ()))
+    out.append(('c18.empty_content_not_shared', '''
+d1 = DiffX()
+d1.meta = {}
+d2 = DiffX()
+d2.meta = {}
+c = d1.add_change(meta={})
+before = SNAP(d2, c)
+d1.meta['x'] = SYM_BOX()
+d1.meta_section.options['format'] = SYM_BOX()
+after = SNAP(d2, c)
+d3 = DiffX()
+fresh = SNAP(d3)
+pristine = SNAP(DiffX())
+''', [('emptied_sections_do_not_share', 'SAME(before, after)'),
+      ('defaults_not_polluted', 'len(d3.meta) == 0 and len(c.meta) == 0'),
+      ('later_tree_pristine', 'SAME(fresh, pristine)')], ()))
     out.append(('c18.siblings', '''
 d = DiffX()
 c1 = d.add_change()
